@@ -1,6 +1,8 @@
 package scanner
 
 import (
+	"unicode/utf8"
+
 	"github.com/jsightapi/jsight-schema-go-library/bytes"
 	"github.com/jsightapi/jsight-schema-go-library/fs"
 
@@ -28,6 +30,7 @@ type Scanner struct {
 	lastDirectiveParameters []*Lexeme
 	curIndex                bytes.Index
 	dataSize                bytes.Index
+	encodingChecked         bool
 }
 
 func NewJApiScanner(file *fs.File) *Scanner {
@@ -51,6 +54,13 @@ func (s *Scanner) File() *fs.File {
 // Next reads japi file by bytes, detects lexemes beginnings and ends and returns them as soon as they found
 // returns false for the end of file
 func (s *Scanner) Next() (*Lexeme, *jerr.JApiError) {
+	if !s.encodingChecked {
+		s.encodingChecked = true
+		if i := firstInvalidUTF8(s.data); i >= 0 {
+			return nil, s.japiError("File must be in UTF-8 encoding", bytes.Index(i))
+		}
+	}
+
 	if len(s.finds) != 0 { // found beginning or end of lexeme
 		lex, je := s.processLexemeEvent(s.shiftFound())
 		if je != nil {
@@ -99,6 +109,23 @@ func (s *Scanner) Next() (*Lexeme, *jerr.JApiError) {
 	}
 
 	return nil, nil
+}
+
+// firstInvalidUTF8 returns the index of the first byte which is not a part of a
+// valid UTF-8 sequence, or -1.
+func firstInvalidUTF8(b []byte) int {
+	for i := 0; i < len(b); {
+		if b[i] < utf8.RuneSelf {
+			i++
+			continue
+		}
+		r, size := utf8.DecodeRune(b[i:])
+		if r == utf8.RuneError && size == 1 {
+			return i
+		}
+		i += size
+	}
+	return -1
 }
 
 func (s *Scanner) CurrentIndex() bytes.Index {
